@@ -39,7 +39,7 @@ ASSUMPTIONS = [
 ]
 BUDGET = {
     "quick": dict(cases=300, shards=4, timeout=1800),
-    "thorough": dict(cases=1500, shards=16, timeout=5400, time=1500),
+    "thorough": dict(cases=6000, shards=16, timeout=5400, time=1500),
 }
 _BASE = ["small", "wide", "lens_mixed", "lm_plain", "saturated", "lm_mixture", "peaky", "wide_lm", "T0",
          "manual", "uniform", "lm_batch_lens", "f64", "beta0", "wide_sat"]
